@@ -118,8 +118,8 @@ WEX = 'examples/multisig-smart-account/webauthn-verifier WebauthnVerifierContrac
 WA = 'verifiers::webauthn::'
 FS = '--max-field-sensitivity-array-size 1100'
 ED_B = 'payload: arbitrary Bytes of length 0..=16, arbitrary 32-byte key and 64-byte signature, oracle answer arbitrary; unwind 20'
-WDOC_B = ('client-data JSON = CONCRETE text (%s) inside an ARBITRARY WebAuthnSigData (64-byte signature, 37 bytes of authenticator data); sig_data = 8 arbitrary bytes '
-          'pinned to decode to that value (every other byte string does not decode); key_data = n arbitrary bytes, n symbolic 0..=80 (65-byte key + 0..15 bytes of '
+WDOC_B = ('client-data JSON = CONCRETE text (%s) inside an ARBITRARY WebAuthnSigData (64-byte signature, 37 bytes of authenticator data); sig_data = 8 FIXED bytes '
+          'pinned to decode to that value (every other byte string does not decode; the contract reads sig_data only through from_xdr); key_data = n arbitrary bytes, n symbolic 0..=80 (65-byte key + 0..15 bytes of '
           'credential id); signature payload 32 arbitrary bytes; oracle answer arbitrary; core::str::from_utf8 stubbed by the over-approximation of verifiers.rs; unwind 200')
 
 
@@ -135,7 +135,10 @@ VERIFIERS = [
     K(X + 'ed25519_ex::accepts', functions=[EEX, 'verifiers::ed25519::verify'], bounds=ED_B + '; oracle pinned to "valid"', must_succeed=True),
     wx('verify_doc', '{"type":"webauthn.get","challenge":"<43>"}'),
     wx('verify_doc_accepts', '{"challenge":"<43>","type":"webauthn.get"}; genuine, n >= 65, oracle pinned to "valid"', must_succeed=True),
-    wx('verify_never', '{"type":"webauthn.get","challenge":"<43>"}; one of: n < 65 / sig_data other than the pinned bytes / oracle pinned to "invalid"'),
+    wx('verify_short_key', '{"type":"webauthn.get","challenge":"<43>"}; n < 65'),
+    wx('verify_undecodable_same_length', '{"type":"webauthn.get","challenge":"<43>"}; sig_data = 8 bytes other than the pinned ones'),
+    wx('verify_undecodable_other_length', '{"type":"webauthn.get","challenge":"<43>"}; sig_data = 7 bytes'),
+    wx('verify_oracle_rejects', '{"type":"webauthn.get","challenge":"<43>"}; oracle pinned to "invalid"'),
     wx('verify_wrong_type', '"type":"webauthn.create"'),
     wx('verify_other_challenge', 'challenge differing in its last character'),
 ]
@@ -178,7 +181,7 @@ CHECKS = {
                    'key_data of 0..=80 bytes / sig_data bytes'),
         'outside_claim': ('webauthn example: credential ids longer than 15 bytes (everything after byte 65 of key_data is ignored by the code: shown for 0..15 bytes); real XDR '
                           'decoding of sig_data (modelled as a harness-pinned partial injective decoding: the pinned bytes decode to an arbitrary WebAuthnSigData, all other '
-                          'bytes do not decode)'),
+                          'bytes do not decode; the pinned bytes are concrete, see examples.rs mk_input)'),
         'stubs_and_assumes': [EXAMPLE_LEVEL,
                               'webauthn_ex: WebAuthnSigData::from_xdr is the model\'s xdr::preset_from_xdr pairing (bytes, value), both arbitrary; a struct with two Bytes members '
                               'cannot be serialised into one model Bytes'],
